@@ -225,6 +225,10 @@ def r4_reducer_and_compare(ctx):
         r.anchor_missing("handlers::files::handlers::move_file")
 
 
+# extra build configurations analysed in the thorough tier
+THOROUGH_CONFIGS = ['net-min']
+
+
 def run(ctx):
     ctx.explanation = (
         "Value-flow and path rules at the two blob creation points and at every file-manager call site: (R1) on the "
